@@ -628,6 +628,36 @@ func (g *gen) shape() [][]*spb.AFTOperation {
 		return d
 	}
 	var out [][]*spb.AFTOperation
+	if g.chance(1, 6) {
+		// the SAME key held twice (different groups, both of them held on one missing next-hop), the four operations in
+		// any order, in one request or several; the next-hop then releases everything in ONE cascade. Whatever order the
+		// implementation installs and acknowledges them in, the entry must end up as the operation acknowledged last says.
+		e1 := top(ni, spb.AFTOperation_ADD, gA, nil, nil)
+		gOther := gA%4 + 1
+		e2 := top(ni, spb.AFTOperation_ADD, gOther, nil, e1)
+		ops := []*spb.AFTOperation{e1, grp(ni, gOther, spb.AFTOperation_ADD, nhA), e2, grp(ni, gA, spb.AFTOperation_ADD, nhA)}
+		if g.chance(1, 2) {
+			g.r.Shuffle(len(ops), func(i, j int) { ops[i], ops[j] = ops[j], ops[i] })
+		}
+		if g.chance(1, 3) {
+			// ids in the opposite order to the arrival order
+			for i, j := 0, len(ops)-1; i < j; i, j = i+1, j-1 {
+				ops[i].Id, ops[j].Id = ops[j].Id, ops[i].Id
+			}
+		}
+		if g.chance(1, 2) {
+			out = append(out, ops)
+		} else {
+			for _, o := range ops {
+				out = append(out, []*spb.AFTOperation{o})
+			}
+		}
+		if g.chance(1, 4) {
+			out = append(out, []*spb.AFTOperation{del(e1)})
+		}
+		out = append(out, []*spb.AFTOperation{nh(ni, nhA)})
+		return out
+	}
 	switch g.pick(5) {
 	case 4: // a large cascade: many entries of all kinds and instances held on ONE missing group, released at once
 		seen := map[string]bool{}
